@@ -122,3 +122,93 @@ func isElemLoad(v ssa.Value, s, idx ssa.Value) bool {
 	ia, ok := ld.X.(*ssa.IndexAddr)
 	return ok && ia.X == s && ia.Index == idx
 }
+
+// lfOfEnv is lfOf with the phis of env replaced by the forms they received on the path walked.
+func lfOfEnv(v ssa.Value, env map[*ssa.Phi]linForm, depth int) linForm {
+	if p, ok := v.(*ssa.Phi); ok {
+		if f, ok := env[p]; ok {
+			return f
+		}
+	}
+	if k, ok := constInt(v); ok {
+		return linForm{c: k, terms: map[string]int64{}}
+	}
+	if depth < 12 {
+		switch x := v.(type) {
+		case *ssa.BinOp:
+			switch x.Op {
+			case token.ADD:
+				return lfAdd(lfOfEnv(x.X, env, depth+1), lfOfEnv(x.Y, env, depth+1), 1)
+			case token.SUB:
+				return lfAdd(lfOfEnv(x.X, env, depth+1), lfOfEnv(x.Y, env, depth+1), -1)
+			case token.MUL:
+				if k, ok := constInt(x.Y); ok {
+					return lfScale(lfOfEnv(x.X, env, depth+1), k)
+				}
+				if k, ok := constInt(x.X); ok {
+					return lfScale(lfOfEnv(x.Y, env, depth+1), k)
+				}
+			}
+		case *ssa.UnOp:
+			if x.Op == token.SUB {
+				return lfScale(lfOfEnv(x.X, env, depth+1), -1)
+			}
+		case *ssa.Convert:
+			return lfOfEnv(x.X, env, depth+1)
+		case *ssa.ChangeType:
+			return lfOfEnv(x.X, env, depth+1)
+		}
+	}
+	return linForm{terms: map[string]int64{lfAtom(v): 1}}
+}
+
+// nextIterationForms walks every acyclic path from block start to the header of loop variable I (a phi of the
+// header) and returns, as linear forms over the values of the current iteration, what I receives for the next one.
+// complete is false when the walk was cut (too many paths).
+func nextIterationForms(I *ssa.Phi, start *ssa.BasicBlock) (forms []linForm, complete bool) {
+	header := I.Block()
+	complete = true
+	budget := 4096
+	var walk func(b *ssa.BasicBlock, env map[*ssa.Phi]linForm, onPath map[*ssa.BasicBlock]bool)
+	walk = func(b *ssa.BasicBlock, env map[*ssa.Phi]linForm, onPath map[*ssa.BasicBlock]bool) {
+		if budget--; budget < 0 {
+			complete = false
+			return
+		}
+		for _, to := range b.Succs {
+			pi := -1
+			for i, p := range to.Preds {
+				if p == b {
+					pi = i
+				}
+			}
+			if to == header {
+				if pi >= 0 {
+					forms = append(forms, lfOfEnv(I.Edges[pi], env, 0))
+				}
+				continue
+			}
+			if onPath[to] {
+				continue
+			}
+			env2 := map[*ssa.Phi]linForm{}
+			for k, v := range env {
+				env2[k] = v
+			}
+			for _, ins := range to.Instrs {
+				phi, ok := ins.(*ssa.Phi)
+				if !ok {
+					break
+				}
+				if pi >= 0 {
+					env2[phi] = lfOfEnv(phi.Edges[pi], env, 0)
+				}
+			}
+			onPath[to] = true
+			walk(to, env2, onPath)
+			delete(onPath, to)
+		}
+	}
+	walk(start, map[*ssa.Phi]linForm{}, map[*ssa.BasicBlock]bool{start: true})
+	return forms, complete
+}
